@@ -859,7 +859,10 @@ func (handler *datasetHandler) processEntities(
 		if err := dataset.ReleaseFullSyncLease(fullSyncID); err != nil {
 			return echo.NewHTTPError(http.StatusGone, server.HTTPGenericErr(err).Error())
 		}
-		if err := dataset.CompleteFullSync(c.Request().Context()); err != nil {
+		if err := dataset.CompleteFullSyncWithID(c.Request().Context(), fullSyncID); err != nil {
+			if errors.Is(err, server.ErrFullSyncSuperseded) {
+				return echo.NewHTTPError(http.StatusConflict, server.HTTPFullsyncErr(err).Error())
+			}
 			return echo.NewHTTPError(http.StatusInternalServerError, server.HTTPGenericErr(err).Error())
 		}
 	}
